@@ -4,7 +4,7 @@
 use crate::common::*;
 use crate::model::*;
 use crate::vfail;
-use ckb_db::iter::{DBIterator, IteratorMode};
+use ckb_db::iter::IteratorMode;
 use ckb_db_schema::{
     COLUMN_CELL, COLUMN_CELL_DATA, COLUMN_CELL_DATA_HASH, COLUMN_INDEX, COLUMN_META, COLUMN_TRANSACTION_INFO,
     COLUMN_UNCLES, Col, META_CURRENT_EPOCH_KEY, META_TIP_HEADER_KEY,
